@@ -64,7 +64,7 @@ pub struct Panic {
 impl Panic {
     /// Did the panic originate in trippy (as opposed to the harness or a dependency)?
     pub fn in_repo(&self) -> bool {
-        self.file.contains("/repo/crates/") || self.file.starts_with("crates/")
+        self.file.contains("/repo/crates/") || self.file.contains("/repo-dev/crates/") || self.file.starts_with("crates/")
     }
     /// A normalised site: file (relative to the repository) without line number.
     pub fn site(&self) -> String {
@@ -110,7 +110,7 @@ pub fn install_panic_hook() {
         let mut message = message;
         // a panic raised inside a dependency (registry crate / std): attribute it to the innermost
         // caller that is either trippy code or harness code, from the backtrace
-        let in_repo = file.contains("/repo/crates/") || file.starts_with("crates/");
+        let in_repo = file.contains("/repo/crates/") || file.contains("/repo-dev/crates/") || file.starts_with("crates/");
         let in_harness = file.starts_with("src/") || file.contains("/verif/harness/src/");
         if !in_repo && !in_harness {
             let bt = std::backtrace::Backtrace::force_capture().to_string();
@@ -118,7 +118,7 @@ pub fn install_panic_hook() {
             for l in bt.lines() {
                 let t = l.trim();
                 if let Some(at) = t.strip_prefix("at ") {
-                    let is_repo = at.contains("/repo/crates/");
+                    let is_repo = at.contains("/repo/crates/") || at.contains("/repo-dev/crates/");
                     let is_harness = at.starts_with("./src/") || at.starts_with("src/") || at.contains("/verif/harness/src/");
                     if is_repo || is_harness {
                         if is_repo {
